@@ -394,7 +394,7 @@ def run_config(tier, cfg="default", features=None, rustflags="", only=None):
                             "every executed branch condition, address, length and division operand is independent of the secret inputs")
             import re as _re
             fnm = _re.sub(r"17h[0-9a-f]{1,16}E?$", "", e.where.split(":")[0].strip())
-            det = {"key": "%s|%s|%s" % (CFG[0], fnm, e.kind), "kind": e.kind, "where": e.where,
+            det = {"key": "%s|%s|%s" % (CFG[0], d.name[7:], e.kind), "function": fnm, "kind": e.kind, "where": e.where,
                    "witness0": {k: hex(v) for k, v in list(e.m0.items())[:16]},
                    "witness1": {k: hex(v) for k, v in list(e.m1.items())[:16]},
                    "found_by": "z3-bv: both values of the condition are reachable"}
